@@ -14,7 +14,7 @@
    spellings are decided on the implementation by the spelling oracle. *)
 From Coq Require Import List NArith ZArith Arith Bool.
 From Coq Require Import Permutation.
-From PG Require Import Common.Strs Ring.Peg Ring.Reader Ring.Reader_proofs Graph.Mol Graph.Match Graph.Match_proofs Graph.Embed Graph.Embed_inst Graph.Scheme Graph.Scheme_proofs Graph.Centres_proofs Graph.Centres_equiv Graph.Remap_proofs Graph.Descr_equiv.
+From PG Require Import Common.Strs Ring.Peg Ring.Reader Ring.Reader_proofs Graph.Mol Graph.Match Graph.Match_proofs Graph.Embed Graph.Embed_inst Graph.Scheme Graph.Scheme_proofs Graph.Centres_proofs Graph.Centres_equiv Graph.Remap_proofs Graph.Descr_equiv Graph.Arom_equiv.
 From Coq Require QArith.
 Import ListNotations.
 
@@ -117,3 +117,27 @@ Theorem C03_descriptors_renumbering : forall m phi psi sch, wf_mol m -> wf_rings
   forall k, QArith_base.Qeq (dict_get (descriptors_of sch (rename_mol phi psi m) NM) k) (dict_get (descriptors_of sch m nm) k).
 Proof. intros m phi psi sch W R P1 P2. exact (descriptors_rename m phi psi W R P1 P2 sch). Qed.
 Print Assumptions C03_descriptors_renumbering.
+
+(* ---------- at the level of GetDescriptors: the only spelling dependence is the ORDER of the ring list ---------- *)
+(* the Benson aromatisation commutes with the renumbering when the ring list is carried along in the same order *)
+Theorem C03_aromatize_renumbering : forall phi psi m0, wf_mol m0 -> wf_rings m0 ->
+  (forall i, i < natom m0 -> phi i < natom m0 /\ psi (phi i) = i) ->
+  (forall k, k < natom m0 -> psi k < natom m0 /\ phi (psi k) = k) ->
+  forall sssr, (forall r x, In r sssr -> In x r -> x < natom m0) ->
+  aromatize (map (map phi) sssr) (rename_mol phi psi m0) = rename_mol phi psi (aromatize sssr m0).
+Proof. exact aromatize_rename. Qed.
+
+(* GetDescriptors (model) on the renumbered input graph with the renumbered ring list: fails exactly when the original call fails,
+   and otherwise returns the same map - for every scheme with reader-produced prefix-free patterns and a chain-free remap table.
+   (C03_aromatize_order_refuted shows that a different ORDER of the rings can change the result: the known finding.) *)
+Theorem C03_get_descriptors_renumbering : forall phi psi m0, wf_mol m0 -> wf_rings m0 ->
+  (forall i, i < natom m0 -> phi i < natom m0 /\ psi (phi i) = i) ->
+  (forall k, k < natom m0 -> psi k < natom m0 /\ phi (psi k) = k) ->
+  forall sch, (forall p, In p (s_patterns sch) -> good_frag (p_frag p)) -> (forall ds, In ds (s_descr sch) -> good_frag (d_frag ds)) ->
+  chain_free (s_remaps sch) ->
+  forall sssr, (forall r x, In r sssr -> In x r -> x < natom m0) ->
+  ((exists e, get_descriptors sch sssr m0 = SRaise e) <-> (exists e, get_descriptors sch (map (map phi) sssr) (rename_mol phi psi m0) = SRaise e))
+  /\ (forall d D, get_descriptors sch sssr m0 = SOk d -> get_descriptors sch (map (map phi) sssr) (rename_mol phi psi m0) = SOk D ->
+        forall k, QArith_base.Qeq (dict_get D k) (dict_get d k)).
+Proof. exact get_descriptors_rename. Qed.
+Print Assumptions C03_get_descriptors_renumbering.
